@@ -522,12 +522,16 @@ def data_arrays(c, backend="numpy", zchunks=None, vchunks=None):
         if vals.ndim == 3:
             vchunks = (vals.shape[0],) + tuple(vchunks) if len(vchunks) == 2 else vchunks
         vals = da.from_array(vals, chunks=vchunks)
-    zd = xr.DataArray(zones, dims=["y", "x"])
+    # dimension names (the *dims* dimension of C03's dask streams): `zdims` / `vdims` in the case, a list of names or
+    # "auto" = no names given (xarray's dim_0, dim_1, …); default: both rasters on ("y", "x"), layers on "cat"
+    zdims = c.get("zdims") or ["y", "x"]
+    vdims = c.get("vdims") or (["cat", "y", "x"] if vals.ndim == 3 else ["y", "x"])
+    zd = xr.DataArray(zones) if zdims == "auto" else xr.DataArray(zones, dims=list(zdims))
     if vals.ndim == 3:
-        vd = xr.DataArray(vals, dims=["cat", "y", "x"],
-                          coords={"cat": [num_of(l[0]) for l in c["layers"]]})
+        vd = xr.DataArray(vals) if vdims == "auto" else xr.DataArray(vals, dims=list(vdims))
+        vd = vd.assign_coords({vd.dims[0]: [num_of(l[0]) for l in c["layers"]]})
     else:
-        vd = xr.DataArray(vals, dims=["y", "x"])
+        vd = xr.DataArray(vals) if vdims == "auto" else xr.DataArray(vals, dims=list(vdims))
     return zd, vd
 
 
